@@ -46,6 +46,7 @@ def cases(ctx):
             {"op": "flush"},
             {"op": "add", "target": {"kind": "entry", "array": "a1", "idx": 0}, "other": 1, "mod": None}], "script": []}
         yield {"kind": "kf-reg-across-flush"}
+        yield {"kind": "kf-remeasure"}
     for _ in range(ctx.n(900, 120000)):
         g = HostGen(rng, max_depth=rng.choice([2, 3, 4]))
         prog = g.program(rng.randrange(2, 9), p_flush=rng.choice([0.0, 0.2, 0.4, 0.7]))
@@ -128,6 +129,8 @@ def all_scripts(prog, cap=64):
 
 
 def run_case(ctx, case):
+    if case["kind"] == "kf-remeasure":
+        return _kf_remeasure(ctx, case)
     if case["kind"] == "kf-reg-across-flush":
         return _kf_reg(ctx, case)
     prog, script = case["prog"], case["script"]
@@ -147,6 +150,35 @@ def run_case(ctx, case):
         ctx.count("bodies_executed", ref.executed_bodies)
         ctx.count("loop_iterations", ref.iterations)
     ctx.case(case, nontrivial)
+
+
+def _kf_remeasure(ctx, case):
+    """Known finding: a RegFuture handle that the program measures into twice is bound to a new M register by every
+    measurement; a condition on the handle that was opened before the second measurement is compiled against the register
+    of the second one."""
+    from netqasm.sdk.futures import RegFuture
+    from netqasm.sdk.qubit import Qubit
+    from vf.harness.pipeline import Pipe
+    pipe = Pipe(script=[1, 0, 0])
+    with pipe.conn as conn:
+        q = Qubit(conn)
+        m = RegFuture(conn)
+        q.measure(future=m, inplace=True)          # outcome 1
+        with m.if_ne(1):                           # not taken when executed directly
+            q.X()
+            q.measure(future=m, inplace=True)
+        try:
+            conn.flush()
+            host = int(m)
+            fault = None
+        except Exception as e:
+            host, fault = None, f"{type(e).__name__}: {str(e)[:100]}"
+    nmeas = len(pipe.ex.meas_log)
+    if fault or nmeas != 1 or host != 1:
+        ctx.fail(case, f"m = RegFuture(); q.measure(future=m) -> 1; with m.if_ne(1): q.X(); q.measure(future=m): executed directly the body is "
+                       f"skipped (1 measurement, m = 1); the controller performed {nmeas} measurement(s), the host reads m = {host}"
+                       + (f", fault {fault}" if fault else ""), key="regfuture-remeasured:handle-rebound-to-a-new-register")
+    ctx.case(case, True)
 
 
 def _kf_reg(ctx, case):
